@@ -4,20 +4,24 @@ Contract on the event-processing API  LLMRails.process_events_async -> RuntimeV2
 (nemoguardrails/colang/v2_x/runtime/runtime.py) -> run_to_completion / _advance_head_front
 (nemoguardrails/colang/v2_x/runtime/statemachine.py), written from the property statement:
 
-  T   processing ONE external event through the API returns, within a hard wall-clock limit and after at most
-      `runtime.max_events` processed events (the budget of the API; for programs without event feedback between flows
-      at most 2 + 2 * #program-lines events), for every program whose loops / recursive calls each contain a waiting
-      statement — including activated flows that finish or fail immediately;
+  T   processing ONE external event through the API returns: within a hard wall-clock limit, after at most
+      `runtime.max_events` processed events (at most 2 + 2*L events for a program of L lines whose flows do not feed each
+      other) and after at most 8*L*(processed events + 1) interpreter steps (calls of statemachine.slide; observed
+      < 0.3*L*(events+1)) — for every program whose loops / recursive calls each contain a waiting statement, including
+      activated flows that finish or fail immediately;
   E   no exception escapes the API;
-  F   a runtime error in one flow's statement fails that flow (its instance ends `stopped`, nothing after the faulty
-      statement is executed) and is reported as a ColangError event (observed by a catcher flow in its own
-      interaction loop);
-  U   flows unrelated to the faulty one (own interaction loop, waiting for the same external event, or for later
-      ones) react exactly once to the same event and to every later event.
+  F   a runtime error in one flow's statement (bad expression, wrong type, invalid pattern) fails that flow (its
+      instance ends `stopped`, nothing after the faulty statement is executed) and is reported as a ColangError event
+      (observed by a catcher flow living in its own interaction loop);
+  U   flows unrelated to the faulty one (not its parent/child; own or same interaction loop; waiting for the same
+      external event or for later ones) react exactly once to the same event and to every later event.
 
-The real interpreter is driven in a forked worker process (so that a non-terminating call can be interrupted by an
-alarm signal and, if that does not help, the process killed); programs are generated, the oracle is evaluated on the
-observed output events / final flow states only."""
+The real interpreter is driven in a forked worker process: a call that exceeds the step / event bound is aborted from
+inside (an exception raised by the counting hooks: a `watcher` of the runtime and a counting wrapper around
+statemachine.slide), a call that exceeds the time limit is interrupted by SIGALRM, and a worker that does not answer is
+killed and replaced.  Programs are generated; the oracle looks only at the returned output events / final flow states.
+Expected reactions are computed from the fixture reactor flows alone (tiny fixed state machines), never from a model of
+the interpreter."""
 from pyvc.api import *
 
 RT = "nemoguardrails/colang/v2_x/runtime/runtime.py"
@@ -470,7 +474,8 @@ class _Record:
                                      inputs=inputs, outcome=outcome[:700]))
 
     def record(self):
-        b = self.bound
+        b = self.bound + ("; every API call is bounded by: processed events <= max_events (2 + 2*L without event feedback), interpreter "
+                          "steps <= %d*L*(events + 1), wall-clock limit" % STEPS_PER_LINE)
         if self.skipped:
             b += "; %d scenario(s) of a variant that had already hit the time limit were skipped" % self.skipped
         return dict(function=self.function, evaluations=self.n, distinct=len(self.seen), failures=self.nfail, failing=self.failing, bound=b)
@@ -605,7 +610,7 @@ def _fault_checks(pool, rng, tier):
             else:
                 for nesting in NESTINGS:
                     for e in errs:
-                        plan += [(nesting, e, []), (nesting, e, None), (nesting, e, None)]
+                        plan += [(nesting, e, []), (nesting, e, None)]
             for nesting, err, prefix in plan:
                 sc = _fault_program(rng, position, nesting, err, prefix)
                 if rec.hung.get(position, 0) >= hang_cap:
@@ -617,7 +622,7 @@ def _fault_checks(pool, rng, tier):
                          "harmless statements, flow activated by main or started by an activated launcher, random activation order; 2-4 "
                          "unrelated reactor flows in their own (or the same) interaction loop and a ColangError catcher; events Go, "
                          "Other, Again x 2 rounds, one event per API call; %s" % (
-                             len(errs), position, "%d sampled programs" % len(plan) if quick else "all nestings x all error kinds x 3 layouts"))
+                             len(errs), position, "%d sampled programs" % len(plan) if quick else "all nestings x all error kinds x 2 layouts (%d programs)" % len(plan)))
             yield rec.record()
 
 
